@@ -7,6 +7,7 @@ Import ListNotations.
 
 Section WithVoters.
 Variable vs : list N.
+Variable vo : list N.
 
 Record rread := mkRead {
   rd_term : N;                          (* the serving leadership *)
@@ -20,7 +21,7 @@ Definition rstate := (sstate * list rread)%type.
 Definition has_acker (r : rread) (q : N) : bool := existsb (N.eqb q) (rd_ackers r).
 
 Inductive rstep : rstate -> rstate -> Prop :=
-| RProto s s' rs : sstep vs s s' -> rstep (s, rs) (s', rs)
+| RProto s s' rs : sstep vs vo s s' -> rstep (s, rs) (s', rs)
 | RRequest s rs c t i e :
     (* the leader of t, still in term t, has committed an entry of its own term *)
     tm s c = t -> ldr s t = Some c -> In (i, e, t) (commits s) ->
@@ -36,12 +37,12 @@ Inductive rreach : rstate -> Prop :=
 
 Definition read_inv (s : sstate) (r : rread) : Prop :=
   (forall q, (rd_tm0 r q <= tm s q)%N) /\
-  (forall i e t', In (i, e, t') (rd_c0 r) -> (rd_term r < t')%N -> majority vs (fun q => N.ltb (rd_term r) (rd_tm0 r q))) /\
+  (forall i e t', In (i, e, t') (rd_c0 r) -> (rd_term r < t')%N -> majority vs vo (fun q => N.ltb (rd_term r) (rd_tm0 r q))) /\
   (forall q, In q (rd_ackers r) -> (rd_tm0 r q <= rd_term r)%N) /\
   (exists i e, In (i, e, rd_term r) (rd_c0 r)) /\
   (forall c, In c (rd_c0 r) -> In c (commits s)).
 
-Definition RInv (p : rstate) : Prop := SInv vs (fst p) /\ forall r, In r (snd p) -> read_inv (fst p) r.
+Definition RInv (p : rstate) : Prop := SInv vs vo (fst p) /\ forall r, In r (snd p) -> read_inv (fst p) r.
 
 Lemma rreach_rinv p : rreach p -> RInv p.
 Proof.
@@ -50,16 +51,16 @@ Proof.
   - destruct S as [s s' rs S|s rs c t i e Hc Hl HC|s rs1 r rs2 q Hq]; unfold RInv; cbn [fst snd] in *.
     + split; [eapply sinv_step; eassumption|]. intros r H. destruct (IR r H) as (A & B & C & D & E).
       refine (conj _ (conj B (conj C (conj D _)))).
-      * intros q. pose proof (A q). pose proof (tm_stable vs s s' q S). lia.
+      * intros q. pose proof (A q). pose proof (tm_stable vs vo s s' q S). lia.
       * intros c Hc. eapply commits_stable; [exact S|]. apply E. exact Hc.
     + split; [exact IS|]. intros r [E|H]; [|apply IR; exact H]. subst r. unfold read_inv. cbn.
       refine (conj _ (conj _ (conj _ (conj _ _)))).
       * intros q. lia.
-      * intros i' e' t' HC' LT. destruct (i13 vs s IS _ _ _ HC') as (_ & _ & _ & MA & _).
+      * intros i' e' t' HC' LT. destruct (i13 vs vo s IS _ _ _ HC') as (_ & _ & _ & MA & _).
         eapply majority_mono; [|exact MA]. intros q Q. unfold acked in Q. apply existsb_exists in Q.
         destruct Q as [[[n t0] k] [INA Q]]. apply andb_true_iff in Q. destruct Q as [Q _]. apply andb_true_iff in Q.
         destruct Q as [E1 E2]. apply N.eqb_eq in E1. apply N.eqb_eq in E2. subst n t0.
-        destruct (i9 vs s IS _ _ _ INA) as (T & _). apply N.ltb_lt. lia.
+        destruct (i9 vs vo s IS _ _ _ INA) as (T & _). apply N.ltb_lt. lia.
       * intros q [].
       * exists i, e. exact HC.
       * intros c0 H. exact H.
@@ -76,7 +77,7 @@ Qed.
    was committed when the request was made lies at or below a position committed by the serving
    leadership, once a majority has answered the heartbeat. *)
 Theorem read_index_covers p r :
-  rreach p -> In r (snd p) -> majority vs (has_acker r) ->
+  rreach p -> In r (snd p) -> majority vs vo (has_acker r) ->
   forall i' e' t', In (i', e', t') (rd_c0 r) ->
     exists i e, In (i, e, rd_term r) (rd_c0 r) /\ (i' <= i)%nat.
 Proof.
@@ -85,17 +86,17 @@ Proof.
   destruct (N.lt_trichotomy t' (rd_term r)) as [LT|[EQ|GT]].
   - (* an earlier leadership: its committed position lies below the leadership's own committed entry *)
     exists i, e. split; [exact HC|].
-    destruct (i13 vs (fst p) IS _ _ _ (E _ HC)) as (AT & HN & FE & _ & _).
-    destruct (i13 vs (fst p) IS _ _ _ (E _ HC')) as (AT' & HN' & FE' & _ & D').
+    destruct (i13 vs vo (fst p) IS _ _ _ (E _ HC)) as (AT & HN & FE & _ & _).
+    destruct (i13 vs vo (fst p) IS _ _ _ (E _ HC')) as (AT' & HN' & FE' & _ & D').
     pose proof (D' _ AT LT) as AG.
     assert (N' : nth_error (L (fst p) (rd_term r)) i' = Some e').
     { rewrite (agree_nth _ _ _ i' AG) by lia. exact HN'. }
     destruct (Nat.le_gt_cases i' i) as [LE|GT]; [exact LE|exfalso].
-    pose proof (proj1 (i2 vs (fst p) IS (KLead (rd_term r))) i i' e e' ltac:(lia) HN N') as MM. lia.
+    pose proof (proj1 (i2 vs vo (fst p) IS (KLead (rd_term r))) i i' e e' ltac:(lia) HN N') as MM. lia.
   - subst t'. exists i', e'. split; [exact HC'|lia].
   - (* a later leadership cannot have committed before the request: its majority had left the term *)
     exfalso. pose proof (B _ _ _ HC' GT) as MH.
-    destruct (majority_meet vs _ _ MH MJ) as [q [Q1 Q2]].
+    destruct (majority_meet vs vo _ _ MH MJ) as [q [Q1 Q2]].
     apply N.ltb_lt in Q1. unfold has_acker in Q2. apply existsb_exists in Q2. destruct Q2 as [q' [IN EQ]].
     apply N.eqb_eq in EQ. subst q'. pose proof (C q IN). lia.
 Qed.
